@@ -416,11 +416,17 @@ class Runner:
         self.n = 0
         self.env = dict(os.environ, DDPPATH=self.sut)
 
+    _ausgabe_lock = __import__("threading").Lock()
+
     def ausgabe_obj(self, opt):
         """Duden/Ausgabe compiled on its own (for the 'modules not linked' configuration), cached in the SUT dir"""
         o = os.path.join(self.sut, "lib", "ausgabe_unlinked_O%d.o" % opt)
+        with Runner._ausgabe_lock:
+            return self._ausgabe_obj(o, opt)
+
+    def _ausgabe_obj(self, o, opt):
         if not os.path.exists(o):
-            tmp = o + ".%d.tmp.o" % os.getpid()
+            tmp = o + ".%d.%d.tmp.o" % (os.getpid(), __import__("threading").get_ident())
             p = subprocess.run([os.path.join(self.sut, "bin", "kddp"), "kompiliere", os.path.join(self.sut, "Duden", "Ausgabe.ddp"), "-o", tmp, "-O", str(opt),
                                 "--module-linken=false", "--list-defs-linken=false"], env=self.env, stdout=subprocess.PIPE, stderr=subprocess.STDOUT, text=True)
             if p.returncode != 0:
